@@ -42,7 +42,8 @@ fn c18_cross_conversion() {
     kani::cover!(k == 64 * 3 + 16, "3.25 turns");
 }
 
-/// U2: min/max/clamp and the arithmetic operators act on the radian value, bit for bit.
+/// U2: min/max/clamp, +, -, neg and the Affine/Linear impls act on the radian
+/// value, bit for bit, for all non-NaN floats.
 #[kani::proof]
 fn c18_ops_on_magnitude() {
     let (x, y, s): (f32, f32, f32) = (kani::any(), kani::any(), kani::any());
@@ -51,17 +52,37 @@ fn c18_ops_on_magnitude() {
     assert!((a + b).to_rads().to_bits() == (x + y).to_bits() || (x + y).is_nan());
     assert!((a - b).to_rads().to_bits() == (x - y).to_bits() || (x - y).is_nan());
     assert!((-a).to_rads().to_bits() == (-x).to_bits());
-    assert!((a * s).to_rads().to_bits() == (x * s).to_bits() || (x * s).is_nan());
-    assert!((a / s).to_rads().to_bits() == (x / s).to_bits() || (x / s).is_nan());
     assert!(a.min(b).to_rads() == x.min(y) && a.max(b).to_rads() == x.max(y));
     if x <= y {
         let c = rads(s).clamp(a, b).to_rads();
         assert!(c == s.clamp(x, y) && c >= x && c <= y);
     }
-    // Affine / Linear impls
     assert!(Affine::add(&a, &b) == a + b && Affine::sub(&a, &b) == a - b || (x + y).is_nan() || (x - y).is_nan());
-    assert!(Linear::mul(&a, s) == a * s || (x * s).is_nan());
     assert!(Linear::neg(&a).to_rads().to_bits() == (-x).to_bits());
     assert!(<Angle as Linear>::zero() == Angle::ZERO);
     kani::cover!(x < 0.0 && y > 0.0 && s > 1.0, "generic");
+}
+
+/// U2b: scaling: angle * s, angle / s and Linear::mul act on the radian value.
+/// The scalar is a power of two (2^k, k in [-3,3], either sign) so that the
+/// oracle is an exact exponent shift instead of a second symbolic multiplier.
+#[kani::proof]
+fn c18_scaling() {
+    let x: f32 = kani::any();
+    kani::assume(x.is_finite() && x.abs() >= 1e-30 && x.abs() <= 1e30);
+    let k = int(-3, 3);
+    let neg: bool = kani::any();
+    let p = f32::from_bits(((127 + k) as u32) << 23);
+    let s = if neg { -p } else { p };
+    let a = rads(x);
+    // x * 2^k: same mantissa and sign (xor neg), exponent + k
+    let want_bits = |e: i32| {
+        let b = x.to_bits();
+        let exp = ((b >> 23) & 0xff) as i32 + e;
+        ((b & 0x807f_ffff) | ((exp as u32) << 23)) ^ (if neg { 0x8000_0000 } else { 0 })
+    };
+    assert!((a * s).to_rads().to_bits() == want_bits(k));
+    assert!((a / s).to_rads().to_bits() == want_bits(-k));
+    assert!(Linear::mul(&a, s).to_rads().to_bits() == want_bits(k));
+    kani::cover!(k == 3 && neg && x < 0.0, "times -8");
 }
